@@ -9,6 +9,7 @@ the non-vacuity example of `cache_transparent` in Props.lean; on the real driver
 corpus/C07/refused-then-driver.case.)
 -/
 import NV.C07.Model
+import NV.C07.Compress
 
 namespace NV.C07.Witness
 
@@ -63,5 +64,29 @@ theorem origin_stored_once_runs_static :
     (targetStoredOnce w0 g0 0 1 1).1 = .fail ∧
     (targetStoredOnce w0 (targetStoredOnce w0 g0 0 1 1).2 0 1 1).1 = .call 0 0 0 0 := by
   decide
+
+/-! ### compress_function_tables before the `fix:` commit for its overflow branch
+
+`compressG false` is the code as it was: in the "Woops" branch `num_compressed = i` (readers then take
+`first_defined - num_compressed = f_ov` for the number of index bytes) and `n_def` keeps its old value (the entries from
+the new first_defined on are not all copied).  The table is the one the compiler builds for
+`inherit A; inherit B;` where B inherits A and A defines 260 functions (corpus/C07/compress-overflow-260.case):
+slots 0..259 were taken over by B's definitions (entry `inh 1 i`, not at the expected place), slots 260..520 are B's. -/
+
+def wideTab : RTab :=
+  { flags := List.replicate 521 nameInherited,
+    rt := (List.range 260).map (fun i => REntry.inh 1 i) ++ (List.range 261).map (fun i => REntry.inh 1 i),
+    inherit := [{ prog := 0, fio := 0, vio := 0 }, { prog := 1, fio := 260, vio := 1 }] }
+
+/-- with the old code: slot 0 is read back as `inh 0 0` (the FIRST copy of A: other variables) instead of `inh 1 0`,
+    and slot 300 lies beyond the stored table (the heap-buffer-overflow ASan reports on the real driver); with the
+    repaired code both are right (instance of `find_func_entry_compress`) -/
+theorem old_compress_overflow_branch_loses_entries :
+    wideTab.cmpWF = true ∧
+    (compressG false wideTab).bind (fun c => findFuncEntry wideTab.inherit c 0) = some (.inh 0 0) ∧
+    (compressG false wideTab).map (fun c => findFuncEntry wideTab.inherit c 300) = some none ∧
+    (compressG true wideTab).bind (fun c => findFuncEntry wideTab.inherit c 0) = some (.inh 1 0) ∧
+    (compressG true wideTab).bind (fun c => findFuncEntry wideTab.inherit c 300) = some (.inh 1 40) := by
+  decide +kernel
 
 end NV.C07.Witness
